@@ -158,6 +158,12 @@ class Ref:
                 val[outs[0]] = val[ins[0]].reshape(self.tens(outs[0])["shape"])
             elif k in ("ADD", "SUB", "MUL", "MINIMUM", "MAXIMUM"):
                 val[outs[0]] = self.elementwise(k, ins, outs[0], o, val)
+            elif k in ("LOGISTIC", "TANH", "LEAKY_RELU", "HARD_SWISH"):
+                # table-based on the NPU: the property allows one step, which is only meaningful when nothing computes
+                # on the result afterwards
+                if any(outs[0] in op2["inputs"] for op2 in self.sg["operators"]):
+                    raise Unsupported("%s feeding another operator" % k)
+                val[outs[0]] = self.table_op(k, ins[0], outs[0], o, val)
             elif k in ("RELU", "RELU6"):
                 t = self.tens(outs[0])
                 (sc,), (zp,) = [x[:1] for x in self.quant(outs[0])]
@@ -169,6 +175,31 @@ class Ref:
             else:
                 raise Unsupported(k)
         return {i: val[i] for i in self.sg["outputs"]}
+
+    def table_op(self, k, in_idx, out_idx, o, val):
+        """the real function applied to the dequantised 8-bit input, requantised with round-half-away (the reference kernels
+        stay within one step of this)"""
+        ty = self.tens(out_idx)["type"]
+        if ty not in ("int8", "uint8") or self.tens(in_idx)["type"] != ty:
+            raise Unsupported("table operator type %s" % ty)
+        (si,), (zi,) = [x[:1] for x in self.quant(in_idx)]
+        (so,), (zo,) = [x[:1] for x in self.quant(out_idx)]
+        lo, hi = QRANGE[ty]
+        x = (val[in_idx].astype(np.float64) - float(zi)) * float(np.float32(si))
+        if k == "LOGISTIC":
+            y = 1.0 / (1.0 + np.exp(-x))
+        elif k == "TANH":
+            y = np.tanh(x)
+        elif k == "LEAKY_RELU":
+            alpha = o.get("Alpha", 0.0)
+            alpha = float.fromhex(alpha) if isinstance(alpha, str) else float(alpha)
+            y = np.where(x >= 0, x, x * alpha)
+        else:
+            y = x * np.clip(x + 3.0, 0.0, 6.0) / 6.0
+        q = y / float(np.float32(so))
+        r = np.where(q >= 0, np.floor(q + 0.5), np.ceil(q - 0.5)).astype(np.int64) + int(zo)
+        self.has_table_op = True
+        return np.clip(r, lo, hi)
 
     def elementwise(self, k, ins, out_idx, o, val):
         """reference_integer_ops / reference_ops Add, Sub, Mul (8-bit), Minimum, Maximum; add.cc / sub.cc / mul.cc Prepare"""
